@@ -523,7 +523,19 @@ func ruleJoinJ1(r *Run, rule string, fnKeys ...string) {
 
 func recvObj(info *types.Info, call *ast.CallExpr) types.Object {
 	if sel, ok := ast.Unparen(call.Fun).(*ast.SelectorExpr); ok {
-		return ObjOf(info, sel.X)
+		x := ast.Unparen(sel.X)
+		for { // (&v).M(), (*p).M(): the variable is the receiver
+			if u, ok := x.(*ast.UnaryExpr); ok && u.Op == token.AND {
+				x = ast.Unparen(u.X)
+				continue
+			}
+			if st, ok := x.(*ast.StarExpr); ok {
+				x = ast.Unparen(st.X)
+				continue
+			}
+			break
+		}
+		return ObjOf(info, x)
 	}
 	return nil
 }
